@@ -352,6 +352,11 @@ def gen_ops(rng, kn, n, depth=0):
             op = ["rewrite", ref()]
         elif r < 0.97:
             op = ["print", ref(), rng.choice(["python", "numpy", "stablehlo", "cpp"])]
+        elif r < 0.972 and depth == 0:
+            # kinds whose names are prefixes of other kinds' names (log / log2 / log10 / log1p, exp / exp2): the longer
+            # kind over one expression, the shorter kind over every expression built so far, each under the same parent
+            op = ["prefix_kinds", rng.choice([["log2", "log"], ["log10", "log"], ["exp2", "exp"], ["log1p", "log"], ["log10", "log1p"]]),
+                  ref(), rng.choice(["sqrt", "negative", "square", "absolute"])]
         elif r < 0.98 and depth == 0 and kn.get("races"):
             # two builders on two contexts in two threads; the schedule decides who runs at every line event
             # inside the constructor / registry (process-global state is all they share)
@@ -885,6 +890,19 @@ class Sim:
                     # be one object, so neither may the expressions built on them)
                     self.violation("duplicate", "again:" + prev.kind, first=repr(prev), second=repr(res))
                 return res
+            if t == "prefix_kinds":
+                (long_kind, short_kind), parent = op[1], op[3]
+                u = self.ref(op[2])
+                a1 = self.step(["op", long_kind, [["R", u]], "Expr"])
+                if a1 is None:
+                    return None
+                self.step(["op", parent, [["R", a1]], "Expr"])
+                self.bump(self.probes, "prefix_kind_sweeps")
+                for v in list(self.vals)[-120:]:
+                    b1 = self.step(["op", short_kind, [["R", v]], "Expr"])
+                    if b1 is not None:
+                        self.step(["op", parent, [["R", b1]], "Expr"])
+                return None
             if t == "list_pair":
                 items = [["R", self.ref(x)] for x in op[1]]
                 if items[-1][1] is items[-2][1]:
